@@ -26,7 +26,7 @@ def run (s : St) (args : List String) : St × String :=
   match args with
   | ["ep.reset"] => ({}, "ok")
   | ["ep.make", m, r, d, c] =>
-    let (e, i) := make s.ep ⟨m.toNat!, r.toNat!, d.toNat!, c.toNat!⟩
+    let (e, i) := make s.ep ⟨m.toNat!, r.toNat!, d.toNat!, c.toNat!, false⟩
     ({ s with ep := e }, toString i)
   | ["ep.remove", id] =>
     match id.toNat? with
